@@ -11,6 +11,7 @@ mod c13;
 mod c15;
 mod c16;
 mod c17;
+mod c19;
 mod json;
 mod rng;
 
@@ -79,6 +80,7 @@ fn main() {
                 "C13" => c13::search(seed, full, &rt),
                 "C15" => c15::search(seed, full, &rt),
                 "C16" => c16::search(seed, full, &rt),
+                "C19" => c19::search(seed, full, &rt),
                 _ => SearchResult { evaluations: 0, failures: vec![], summary: format!("no executable search registered for {pid}") },
             };
             emit_search(r);
@@ -100,6 +102,7 @@ fn main() {
                 "c13" => c13::replay(&case[1..], &rt),
                 "c15" => c15::replay(&case[1..], &rt),
                 "c16" => c16::replay(&case[1..], &rt),
+                "c19" => c19::replay(&case[1..], &rt),
                 _ => (false, "unknown case".to_string()),
             };
             println!("{}", J::obj(vec![("fails", J::Bool(fails)), ("detail", J::s(&detail))]).render());
